@@ -112,6 +112,38 @@ def outcome_of(e: BaseException) -> str:
     return {"RandomnessError": "err:randomness", "KeyError": "err:key"}.get(n, "err:" + n)
 
 
+def observe_update(im, big, df, t, names, hash_probe=6, update=None):
+    """One `IndexMap.update(df, t)` on the real object `im`, with everything the checks look at:
+    ten-digit conversions (the model's parameter), first hash of every key, hash probes, outcome class, the map
+    before and after. `update` = the bound method to call (the unwrapped one when `im.update` is instrumented)."""
+    import pandas as pd
+    rec = {}
+    rec["salt10"] = int(im._convert_to_ten_digit_int(pd.Series(t, index=[0])).iloc[0])
+    if names and len(df):
+        rec["ten"] = [[int(x) for x in im._convert_to_ten_digit_int(df[c]).tolist()] for c in names]   # per column
+        if len(names) == 1:
+            ki = pd.Index(df[names[0]].array, name=names[0])
+        else:
+            ki = pd.MultiIndex.from_frame(df[list(names)])
+        rec["raw"] = [int(x) for x in im._hash(ki, salt=t).tolist()]                  # first hash, this size
+        sub = ki[:min(hash_probe, len(df))]
+        rec["probe"] = {"t_big": [], "s1": [], "s90001_big": []}
+        if len(sub):
+            rec["probe"]["t_big"] = [int(x) for x in big._hash(sub, salt=t).tolist()]
+            rec["probe"]["s1"] = [int(x) for x in im._hash(sub, salt=1).tolist()]              # collision salts
+            rec["probe"]["s90001_big"] = [int(x) for x in big._hash(sub, salt=90001).tolist()]  # _spread wraps 10^10
+    before = dump_map(im)
+    try:
+        (update or im.update)(df, t)
+        rec["outcome"] = "ok"
+    except Exception as e:  # noqa: BLE001
+        rec["outcome"] = outcome_of(e)
+        rec["exc"] = e
+    rec["map"], rec["keys"] = dump_map(im)
+    rec["before"] = before[0]
+    return rec
+
+
 def run_history(hist, hash_probe=6):
     """Run the history on a real IndexMap; observations per batch (all JSON-serialisable)."""
     impl.load()
@@ -124,27 +156,10 @@ def run_history(hist, hash_probe=6):
     big = IndexMap(list(names), size=BIG)
     out = []
     for b in hist["batches"]:
-        rec = {}
         t = mk_salt(b["t"], tunit)
-        rec["salt10"] = int(im._convert_to_ten_digit_int(pd.Series(t, index=[0])).iloc[0])
         df = mk_frame(types, tunit, b["sims"], b["keys"])
-        if types and len(df):
-            rec["ten"] = [[int(x) for x in im._convert_to_ten_digit_int(df[c]).tolist()] for c in names]   # per column
-            ki = key_index(df, types)
-            rec["raw"] = [int(x) for x in im._hash(ki, salt=t).tolist()]                  # first hash, this size
-            n = min(hash_probe, len(df))
-            sub = ki[:n]
-            rec["probe"] = {"t_big": [int(x) for x in big._hash(sub, salt=t).tolist()]}
-            rec["probe"]["s1"] = [int(x) for x in im._hash(sub, salt=1).tolist()]              # collision salts
-            rec["probe"]["s90001_big"] = [int(x) for x in big._hash(sub, salt=90001).tolist()]  # _spread wraps 10^10
-        before = dump_map(im)
-        try:
-            im.update(df, t)
-            rec["outcome"] = "ok"
-        except Exception as e:  # noqa: BLE001
-            rec["outcome"] = outcome_of(e)
-        rec["map"], rec["keys"] = dump_map(im)
-        rec["before"] = before[0]
+        rec = observe_update(im, big, df, t, names, hash_probe)
+        rec.pop("exc", None)
         if b.get("get") is not None:
             try:
                 rec["get"] = [int(x) for x in im[pd.Index(b["get"], dtype="int64")]]
@@ -152,6 +167,48 @@ def run_history(hist, hash_probe=6):
                 rec["get"] = outcome_of(e)
         out.append(rec)
     return out
+
+
+def batch_of_frame(df, t, names):
+    """(types, batch) describing a key frame handed to `IndexMap.update` by running code, in history form"""
+    import pandas as pd
+    import pandas.api.types as pdt
+    types, cols = [], []
+    for c in names:
+        col = df[c]
+        if pdt.is_datetime64_any_dtype(col):
+            types.append("time")
+            cols.append([int(x) for x in col.astype("datetime64[ns]").astype("int64").tolist()])
+        elif pdt.is_integer_dtype(col):
+            types.append("int")
+            cols.append([int(x) for x in col.tolist()])
+        else:
+            types.append("float")
+            cols.append([float(x) for x in col.tolist()])
+    keys = [[cols[j][i] for j in range(len(names))] for i in range(len(df))]
+    tt = ["time", int(pd.Timestamp(t).as_unit("ns").value)] if isinstance(t, pd.Timestamp) else ["int", int(t)]
+    return types, {"t": tt, "sims": [int(x) for x in df.index.tolist()], "keys": keys, "get": None}
+
+
+def instrument(im, log, hash_probe=2):
+    """Record every `update` call made on the real IndexMap `im` by the code that owns it (instance attribute;
+    the source is untouched). `log` receives {"types", "batch", "rec"} per call."""
+    from vivarium.framework.randomness.index_map import IndexMap
+    big = IndexMap(list(im._key_columns), size=BIG)
+    inner = im.update
+
+    def update(new_keys, clock_time):
+        names = list(im._key_columns)
+        if not names or new_keys.empty:
+            return inner(new_keys, clock_time)
+        types, batch = batch_of_frame(new_keys, clock_time, names)
+        rec = observe_update(im, big, new_keys, clock_time, names, hash_probe=hash_probe, update=inner)
+        exc = rec.pop("exc", None)
+        log.append({"types": types, "batch": batch, "rec": rec})
+        if exc is not None:
+            raise exc
+
+    im.update = update
 
 
 # ------------------------------------------------------------------ model lines
